@@ -59,19 +59,15 @@ Proof.
   - apply map_agrees_self.
   - apply listN_eqb_refl.
   - rewrite sub_expect_nil. apply amap_eqb_refl.
+  - rewrite eqb_reflx, amap_eqb_refl, orb_true_r. reflexivity.
 Qed.
 
 Lemma dec_field_agrees cur u v k : dec_field cur u = Some (v, k) -> val_agrees_b cur u v = true.
 Proof.
-  destruct u, cur; cbn; intros H; try discriminate; injection H as <- <-.
-  - apply N.eqb_refl.
-  - apply map_agrees_self.
-  - apply listN_eqb_refl.
-  - rewrite sub_expect_nil. apply amap_eqb_refl.
-  - apply N.eqb_refl.
-  - apply map_agrees_dec.
-  - apply amap_eqb_refl.
-  - apply listN_eqb_refl.
+  destruct u, cur; cbn; intros H; try discriminate; injection H as <- <-;
+    rewrite ?sub_expect_nil, ?eqb_reflx, ?amap_eqb_refl, ?orb_true_r;
+    try reflexivity; try apply N.eqb_refl; try apply map_agrees_self; try apply listN_eqb_refl;
+    try apply map_agrees_dec; try apply amap_eqb_refl.
 Qed.
 
 (* what the decoder wrote is the default overlaid by the settings *)
@@ -109,8 +105,7 @@ Lemma dec_field_fits cur u :
   | None => fits cur u = false
   end.
 Proof.
-  destruct u, cur; cbn; try reflexivity.
-  symmetry. apply unused_zero.
+  destruct u, cur; cbn; try reflexivity; symmetry; apply unused_zero.
 Qed.
 
 Lemma eqb_add_zero a b : Nat.eqb (a + b) 0 = Nat.eqb a 0 && Nat.eqb b 0.
